@@ -144,6 +144,14 @@ def run(ctx, chk):
     allowed = {FEIG + "configure", FEIG + "commit_transaction", FEIG + "cancel_transaction"}
     chk.require(callers_eod <= allowed and len(callers_eod) >= 3, "C19/who-may-call", "end_of_day",
                 "end_of_day is called from %s, allowed %s" % (sorted(callers_eod), sorted(allowed)), "configure/commit/cancel")
+    # "a 'receiver not ready' refusal of end-of-day is tolerated and any other refusal is reported": the abort arm
+    # of end_of_day (clauses shared with C20)
+    import rules_c20
+    from report import Sub
+    sub = Sub(chk, "C19/eod-refusal", lambda r: r.startswith("C20/") and r != "C20/nested-abort-propagates",
+              instance_filter=lambda i: str(i).startswith("end_of_day"))
+    rules_c20.run(ctx, sub)
+    chk.floor("end-of-day refusal obligations (shared with C20)", sub.count, 5)
     chk.floor("C19 obligations", len(chk.obligations), 25)
 
 
